@@ -362,6 +362,33 @@ def ruleV (fuel limit : Nat) (filter : Option String) (doc : Doc) (defs : List (
     Except Err (List (Nat × Nat)) :=
   ruleLoop (fun i op => depthFixed fuel op doc.frags (effectiveVars (defs.getD i []) vars)) limit filter 0 doc.ops
 
+/-! #### the pipeline `graphql_blocking(schema, doc, variables, validators=[default_validator, MaxDepthValidationRule(n, operation_name=filter)])` -/
+
+/-- what `process_graphql_query` does with the validators' verdicts, as far as C19 can see -/
+inductive Outcome where
+  /-- an exception escapes `validate_ast` -/
+  | raised (e : Err)
+  /-- `_abort(errors=validation_result.errors)`: depth errors (operation index, depth) + number of other errors -/
+  | rejected (depthErrors : List (Nat × Nat)) (otherErrors : Nat)
+  /-- validation passed: the document goes to `execute` -/
+  | executed
+  deriving Repr, DecidableEq
+
+/-- `validate_ast(schema, ast, validators=[default_validator, rule], variables=variables)` followed by the
+    `if not validation_result: return _abort(...)` of `process_graphql_query` (after C19-Q1vars.patch the request
+    variables reach the validators). The default validator is abstracted to the number of errors it reports
+    (it ignores the variables; that it does not raise on parsed documents is C05's statement). -/
+def pipeline (fuel n : Nat) (filter : Option String) (doc : Doc) (defs : List (List VarDef)) (vars : Vars)
+    (defaultErrors : Nat) : Outcome :=
+  match ruleV fuel n filter doc defs vars with
+  | .error e => .raised e
+  | .ok errs => if defaultErrors = 0 ∧ errs = [] then .executed else .rejected errs defaultErrors
+
+/-- the request is rejected with (at least) a depth error -/
+def Outcome.depthRejected : Outcome → Bool
+  | .rejected (_ :: _) _ => true
+  | _ => false
+
 /-! ### fuel: a computable potential that bounds every recursion on acyclic documents -/
 
 mutual
